@@ -1,6 +1,8 @@
 (* OvbaDir_proofs — proofs about the dir-stream / project model of OvbaDir.v (property C18).
    Main results:
      dir_roundtrip           parse_dir (encode_dir p) = code page, references, modules of p
+     read_module_enc         one MODULE record, with or without its optional MODULENAMEUNICODE
+                             record (MS-OVBA 2.3.4.2.3.2), is read back: name, stream, offset
      vba_project_roundtrip   a whole project container is read back: references, module names,
                              each module = the meaning of its compressed source from its offset
      rsplit2_spec …          the "…#path#description" reading of a libid
@@ -454,6 +456,24 @@ Proof.
             cbn [orb]); reflexivity.
 Qed.
 
+(* the test [stream.starts_with(&[0x47, 0x00])] of read_modules on a record id *)
+Lemma starts_with2_le16 : forall a b id rest, a < 256 -> b < 256 -> id < 65536 ->
+  starts_with2 a b (le16 id ++ rest) = (id =? a + 256 * b).
+Proof.
+  intros a b id rest Ha Hb Hid. unfold le16, starts_with2. cbn [app].
+  destruct (N.eqb_spec (id mod 256) a) as [E1|E1], (N.eqb_spec (id / 256) b) as [E2|E2],
+           (N.eqb_spec id (a + 256 * b)) as [E3|E3];
+    cbn [andb]; try reflexivity; exfalso; lia.
+Qed.
+
+Lemma starts_with2_record : forall id id' b rest, id < 256 -> id' < 65536 ->
+  starts_with2 id 0 (var_rec id' b ++ rest) = (id' =? id).
+Proof.
+  intros id id' b rest Hid Hid'. unfold var_rec. rewrite <- app_assoc.
+  rewrite starts_with2_le16 by lia. f_equal. lia.
+Qed.
+
+(* one MODULE record, with or without its optional MODULENAMEUNICODE record *)
 Lemma read_module_enc : forall cp m rest, valid_modb m = true ->
   read_module decode cp (enc_mod m ++ rest) = Ok (expected_mod decode cp m, rest).
 Proof.
@@ -461,6 +481,24 @@ Proof.
   and_split Hv Hv Hcookie. and_split Hv Hv Hhelp. and_split Hv Hv Hoff. and_split Hv Hv H6.
   and_split Hv Hv H5. and_split Hv Hv H4. and_split Hv Hv H3. and_split Hv H1 H2.
   unfold read_module, enc_mod. rewrite <- !app_assoc.
+  rewrite check_variable_record_var_rec by assumption. cbn [obind].
+  assert (Hopt : forall tl,
+    (if starts_with2 71 0 ((match ms_name_u m with Some nu => var_rec 71 nu | None => [] end) ++
+                           var_rec 26 (ms_stream m) ++ tl)
+     then do (_, s) <- check_variable_record 71
+                         ((match ms_name_u m with Some nu => var_rec 71 nu | None => [] end) ++
+                          var_rec 26 (ms_stream m) ++ tl); Ok s
+     else Ok ((match ms_name_u m with Some nu => var_rec 71 nu | None => [] end) ++
+              var_rec 26 (ms_stream m) ++ tl))
+    = Ok (var_rec 26 (ms_stream m) ++ tl)).
+  { intro tl. destruct (ms_name_u m) as [nu|].
+    - (* the record is there: its id bytes are 47 00, it is consumed *)
+      rewrite starts_with2_record by lia. eqb_closed.
+      rewrite check_variable_record_var_rec by exact H2. reflexivity.
+    - (* the record is absent: the next id bytes are 1A 00, nothing is consumed *)
+      cbn [app]. rewrite starts_with2_record by lia. eqb_closed. reflexivity. }
+  change 0x47 with 71. change 0x00 with 0. change 0x0047 with 71. change 0x001A with 26.
+  rewrite Hopt. cbn [obind].
   repeat (rewrite check_variable_record_var_rec by assumption; cbn [obind]).
   rewrite check_record_le16. cbn [obind]. adv. cbn [obind].
   rewrite rd_u32_le32 by (apply N.ltb_lt, Hoff). cbn [obind].
@@ -769,8 +807,8 @@ Definition ex_proj : proj :=
                           (repeat 0 16) 7);
       mkrs true [] [] (RRegistered ex_libid);                              (* named, empty name *)
       mkrs false [] [] (RControl None ex_libid2 (Some ([89], [89; 0])) ex_libid (repeat 2 16) 1) ]
-    [ mkms [77; 49] [77; 0; 49; 0] [83; 49] [83; 0; 49; 0] [] [] 3 0 1 false true false;
-      mkms [84; 104] [] [83; 50] [] [100] [] 0 0 2 true false true ]
+    [ mkms [77; 49] (Some [77; 0; 49; 0]) [83; 49] [83; 0; 49; 0] [] [] 3 0 1 false true false;
+      mkms [84; 104] None [83; 50] [] [100] [] 0 0 2 true false true ]   (* no MODULENAMEUNICODE *)
     65535.
 Definition ex_bodies : list (mod_spec * mod_body) :=
   combine (p_mods ex_proj)
@@ -827,6 +865,33 @@ Proof.
   split; [cbn; repeat constructor; cbn; intuition discriminate|].
   eexists. split; vm_compute; reflexivity.
 Qed.
+
+(* ---------- a MODULE record without its optional MODULENAMEUNICODE record (MS-OVBA 2.3.4.2.3.2)
+   Before the fix: commit 4d45fd5 read_modules demanded the record and answered InvalidRecordId
+   (0x001A where 0x0047 was expected) on this stream.  [ex_mod_plain]: MODULENAME "M" directly
+   followed by MODULESTREAMNAME "S"; [ex_mod_uni]: the same module with the record. *)
+Definition ex_mod_plain : mod_spec := mkms [77] None [83] [83; 0] [] [] 5 0 1 false false false.
+Definition ex_mod_uni : mod_spec := mkms [77] (Some [77; 0]) [83] [83; 0] [] [] 5 0 1 false false false.
+
+Example module_without_name_unicode_reads :
+  valid_modb ex_mod_plain = true /\ valid_modb ex_mod_uni = true /\
+  (* the two layouts differ exactly by the 8 bytes of the 0x0047 record *)
+  firstn 14 (enc_mod ex_mod_plain) = [25; 0; 1; 0; 0; 0; 77; 26; 0; 1; 0; 0; 0; 83] /\
+  firstn 22 (enc_mod ex_mod_uni)
+  = [25; 0; 1; 0; 0; 0; 77; 71; 0; 2; 0; 0; 0; 77; 0; 26; 0; 1; 0; 0; 0; 83] /\
+  skipn 7 (enc_mod ex_mod_plain) = skipn 15 (enc_mod ex_mod_uni) /\
+  (* both are read as the same module: name "M", stream "S", text offset 5 *)
+  read_module dec_id 1252 (enc_mod ex_mod_plain ++ [9]) = Ok (mkmod [77] [83] 5, [9]) /\
+  read_module dec_id 1252 (enc_mod ex_mod_uni ++ [9]) = Ok (mkmod [77] [83] 5, [9]) /\
+  (* fewer than two bytes left after MODULENAME: starts_with is false, the next read errs *)
+  read_module dec_id 1252 [25; 0; 1; 0; 0; 0; 77; 71] = Err E_IO /\
+  (* 47 01 is not the record id 0x0047: nothing is skipped, 0x0147 is not MODULESTREAMNAME *)
+  read_module dec_id 1252 [25; 0; 1; 0; 0; 0; 77; 71; 1; 0; 0; 0; 0] = Err E_RECORD_ID /\
+  (* a whole dir stream whose only module has no MODULENAMEUNICODE record *)
+  parse_dir dec_id (encode_dir (mkproj 1 None 1033 1033 1252 [86] [] [] [] [] 0 0 1 2 [] [] []
+                                  [ex_mod_plain] 0))
+  = Ok (1252, [], [mkmod [77] [83] 5]).
+Proof. repeat split; vm_compute; reflexivity. Qed.
 
 (* ---------- the dir-stream reader is total: on every input no panic, and the fuel of its
    loops suffices ---------- *)
@@ -957,7 +1022,11 @@ Lemma read_module_wf : forall cp s,
 Proof.
   intros cp s. unfold read_module.
   wf_step check_variable_record_wf x1 H1. destruct x1 as [b1 s1]. cbn [snd] in *.
-  wf_step check_variable_record_wf x2 H2. destruct x2 as [b2 s2]. cbn [snd] in *.
+  (* the optional MODULENAMEUNICODE record: consumed or not, the stream does not grow *)
+  eapply (@wf_bind _ _ (fun s2 => (length s2 <= length s1)%nat) _ _ _).
+  { destruct (starts_with2 _ _ s1); [|cbn [wf]; lia].
+    wf_step check_variable_record_wf x2 H2. destruct x2 as [b2 s2]. cbn [snd wf] in *. lia. }
+  intros s2 H2. cbn beta in H2.
   wf_step check_variable_record_wf x3 H3. destruct x3 as [b3 s3]. cbn [snd] in *.
   wf_step check_variable_record_wf x4 H4. destruct x4 as [b4 s4]. cbn [snd] in *.
   wf_step check_variable_record_wf x5 H5. destruct x5 as [b5 s5]. cbn [snd] in *.
